@@ -135,7 +135,11 @@ def check_image(final, oracle, bufaddr=None, skip=lambda start, size: False):
     if len(final) != len(emitted):
         return f"length {len(final)} != emitted {len(emitted)}"
     mask = bytearray(len(emitted))      # 0xFF where a field bit lives
-    for (start, fmt, v, r) in oracle.patches(bufaddr):
+    try:
+        patches = oracle.patches(bufaddr)
+    except Unsupported:
+        return None         # not a program this oracle speaks about
+    for (start, fmt, v, r) in patches:
         size = fmt_size(fmt)
         if r.get("dead"):
             continue            # overwritten by a later alter session: the session's bytes are what must be there
